@@ -217,6 +217,58 @@ def check(run):
             run.count('nestedness_checks')
         if run.too_many():
             return
+    end_to_end(run, GH, ref)
+
+
+def end_to_end(run, GH, ref):
+    """AbacusHOD(...).run_hod(...) on staged synthetic subsample directories: the plumbing between staging
+    (C12) and the kernels (unit of velz2kms, enable_ranks, origin, tracer dictionaries)."""
+    import logging
+    import shutil
+
+    from abacusnbody.hod import abacus_hod as AH
+
+    from . import c12
+
+    rng = run.rng(77)
+    for k in range(3 if run.quick else 40):
+        nslab = int(rng.integers(1, 4))
+        flags = dict(want_AB=bool(k % 2), want_shear=bool((k // 2) % 2), want_ranks=bool(k % 3 == 0), want_expvel=False)
+        sub = SUBSETS[(k * 3 + 2) % 7]
+        mt = any(t in sub for t in ('ELG', 'QSO'))
+        truth = c12.make_dir(rng, nslab, ['interleaved', 'random', 'increasing'][k % 3], flags['want_ranks'], mt, [int(rng.integers(30, 200)) for _ in range(nslab)], physical=True)
+        try:
+            tracers = hodref.gen_tracers(rng, sub, fancy=bool(k % 2))
+            sim_params = dict(sim_name=truth['sim'], sim_dir=truth['sim_dir'], subsample_dir=truth['subsample_dir'], z_mock=0.5, output_dir=truth['out'])
+            HOD = dict(tracer_flags={t: (t in sub) for t in hodref.TR}, want_rsd=True, **{t + '_params': tracers.get(t, {}) for t in hodref.TR}, **flags)
+            desc = dict(end_to_end=True, case=k, nslab=nslab, tracers=list(sub), **flags)
+            run.progress(desc)
+            logging.disable(logging.CRITICAL)
+            try:
+                with warnings.catch_warnings():
+                    warnings.simplefilter('ignore')
+                    with c12.stub_histogram(AH):
+                        obj = AH.AbacusHOD(sim_params, HOD)
+                    nt = int(rng.choice([1, 4, 16]))
+                    got = obj.run_hod(tracers=tracers, want_rsd=bool(k % 2), Nthread=nt)
+            finally:
+                logging.disable(logging.NOTSET)
+            run.ev()
+            # parameters the constructor must hand to the kernels
+            if abs(obj.params['velz2kms'] - 1.3e5 / 2000.0) > 1e-9 or obj.params['Lbox'] != 2000.0 or obj.params['origin'] is not None:
+                run.violation('hod-e2e-params', dict(params={k2: repr(v) for k2, v in obj.params.items()}, **desc))
+            exp, info = hodref.reference_catalog(ref, obj.halo_data, obj.particle_data, tracers, obj.params, flags['want_ranks'], bool(k % 2))
+            if info['ambc'].any() or info['ambs'].any():
+                run.count('cases_with_ambiguous_randoms_skipped')
+                continue
+            ngal = sum(len(e['id']) for e in exp.values())
+            if ngal >= 2:
+                run.nt(('e2e', k))
+            run.count('end_to_end_cases')
+            run.count('end_to_end_galaxies', ngal)
+            compare_catalog(run, got, exp, dict(desc, Nthread=nt), 2000.0, key_prefix='hod-e2e')
+        finally:
+            shutil.rmtree(truth['root'], ignore_errors=True)
 
 
 def replay(run, data):
